@@ -1,5 +1,5 @@
 PROP = {
-    "claim": "(dev_batch_add, dev_partition_invariant, sys_ok_create / _write / _time) WHOLE-MACHINE batch independence: for the device function Sys.dev = MemoryAreas::run_clock_cycles as the code composes it (one DMA byte, then timer + LCD + joypad catch up with that machine cycle, ...), a + b clocks in one call leave exactly the state that a clocks then b clocks leave - OAM, all other memory, DIV/TIMA, LCD position, frame counter, joypad request, IF, DMA progress - for every source page INCLUDING the I/O page whose registers change during the copy, every progress, every reachable state; hence any partition into batches of whole machine cycles. Built from the timer's and the LCD's batch additivity (C13, C14), OR-accumulation of IF, a zero-clock catch-up being the identity right after a catch-up, and split / frame lemmas for the copy loop. Proof: over the Lean model of the 0xFF46 write and of the copy loop in MemoryAreas::run_clock_cycles, for every "
+    "claim": "(dev_touches_only_oam_io) the real catch-up changes nothing but OAM (only while a transfer runs), the I/O block and the DMA bookkeeping: cartridge registers, ROM, VRAM, cartridge RAM, work RAM, high RAM are exactly as before, for any amount of time; (dev_batch_add, dev_partition_invariant, sys_ok_create / _write / _time) WHOLE-MACHINE batch independence: for the device function Sys.dev = MemoryAreas::run_clock_cycles as the code composes it (one DMA byte, then timer + LCD + joypad catch up with that machine cycle, ...), a + b clocks in one call leave exactly the state that a clocks then b clocks leave - OAM, all other memory, DIV/TIMA, LCD position, frame counter, joypad request, IF, DMA progress - for every source page INCLUDING the I/O page whose registers change during the copy, every progress, every reachable state; hence any partition into batches of whole machine cycles. Built from the timer's and the LCD's batch additivity (C13, C14), OR-accumulation of IF, a zero-clock catch-up being the identity right after a catch-up, and split / frame lemmas for the copy loop. Proof: over the Lean model of the 0xFF46 write and of the copy loop in MemoryAreas::run_clock_cycles, for every "
              "well-formed bus state, every source page 0..255 and every progress, (dma_batch) a catch-up batch of c clocks copies "
              "exactly the bytes off..min(off+c/4,160)-1 in ascending order, each OAM byte afterwards reading what its source address "
              "XX00+i read through the whole memory map (banked ROM, cartridge RAM, echo, I/O, OAM itself) before the batch, every "
